@@ -470,3 +470,7 @@ uint8 wifi_station_get_connect_status(void) { return (uint8)sdk_wifi_status; }
 sint8 wifi_station_get_rssi(void) { return -60; }
 bool wifi_station_set_auto_connect(uint8 set) { return 1; }
 bool wifi_station_set_config(struct station_config *config) { return 1; }
+int ets_vsnprintf(char *str, size_t size, const char *format, va_list ap) {
+  return vsnprintf(str, size, format, ap);
+}
+void supla_esp_board_on_rollershutter_position_changed(unsigned char channel, signed char pos, signed char tilt) {}
